@@ -233,6 +233,10 @@ class World:
         # run E: same shape at a realistic unix-epoch start (> 2**53 ns): data begins 500 ns after a whole second, so the
         # run start used by seconds_range is 1.7e18 and float arithmetic on absolute times has a ~256 ns grid
         add("e", [(1, 3), (2, 4), (4, 5), (6, 7), (6, 8)], 9, 1, 1_700_000_000 * 10**9 + 500, [0, 4, 6, 9])
+        # run N: NESTED rows — an early row that outlasts every later row of its chunk, so the chunk's recorded `last_endtime`
+        # (end of the last row in time order) is smaller than the latest end in the chunk; a range that only touches the tail of
+        # the long row must still load it (a reader pruning chunks by first_time / last_endtime would not)
+        add("n", [(1, 6), (2, 3), (3, 4), (7, 8)], 9, 1, 20, [0, 6, 9])
         # random runs
         for j in range(n_random):
             rows = gen.gen_rows(rng, rng.randint(3, 8), max_len=3)
